@@ -4,6 +4,11 @@ From RV Require Import Base.Val Base.PyStr Gen.Common Gen.Annot.
 Import ListNotations.
 Local Open Scope string_scope.
 
+(* pin: the class ladder and the merge rules are the modelled ones *)
+Lemma C11_pin_annotator : annotator_as_modelled = true.
+Proof. reflexivity. Qed.
+Print Assumptions C11_pin_annotator.
+
 Definition swap2 (s : string) : string :=
   match list_ascii_of_string s with [a; b] => string_of_list_ascii [b; a] | _ => s end.
 (* LeontisWesthof.reverse: name[perm0] name[perm1] name[perm2] *)
